@@ -313,7 +313,9 @@ func (engine *Engine) Shutdown(ctx context.Context) (err error) {
 		return errStatusNotRunning
 	}
 	if !atomic.CompareAndSwapUint32(&engine.status, statusRunning, statusShutdown) {
-		return
+		// another Shutdown call got in between the check above and here and
+		// is doing the work: this one must not report a completed shutdown
+		return errStatusNotRunning
 	}
 
 	opt := engine.GetOptions()
